@@ -220,6 +220,7 @@ func worker(o *common.Opts) {
 			in := newInst()
 			var res inproc.Result
 			done := make(chan struct{})
+			began := time.Now()
 			go func() {
 				if name == "subscribe" {
 					res = in.Exec(cmd, newPipeConn())
@@ -251,6 +252,11 @@ func worker(o *common.Opts) {
 			out.PerCmd[name]++
 			if name == "blpop" || name == "brpop" {
 				out.Blocking++
+				// a blocking pop may wait, but not beyond its timeout (at most 1 s here; 5 s of head-room for a loaded machine)
+				if el := time.Since(began); el > 6*time.Second && !seen["late|"+name] {
+					seen["late|"+name] = true
+					out.Wits = append(out.Wits, witness{Kind: "hang", Argv: seqrun.QuoteFull(cmd), Detail: fmt.Sprintf("blocking pop with a timeout of at most 1 s answered after %.1f s", el.Seconds()), Sig: "late|" + strings.ToUpper(name)})
+				}
 			}
 			shape := strconv.Itoa(len(argv))
 			if res.Panic != "" {
